@@ -233,6 +233,12 @@ def topSetAttr (c : Cfg) (k v : Bytes) : Option Cfg :=
   | [] => none
   | f :: r => some { c with stack := { f with attrs := mapSet k v f.attrs } :: r }
 
+/-- `elems.length() < 2` (constant time) -/
+def lengthLt2 (s : List Frame) : Bool :=
+  match s with
+  | _ :: _ :: _ => false
+  | _ => true
+
 def ofOpt : Option Cfg → Step
   | some c => .cont c
   | none => .fault
@@ -265,7 +271,7 @@ def step (guard : Bool) (c : Cfg) (ch : UInt8) : Step :=
   | .tagEnd =>
     if ch == 62 then
       -- `if (elems.length() < 2 || b != elems.top().tag()) return Xml();`
-      if guard && c.stack.length < 2 then .null
+      if guard && lengthLt2 c.stack then .null
       else match c.stack with
       | [] => .fault
       | f :: _ =>
